@@ -93,6 +93,7 @@ impl Plane {
             self.cpr_lat[cpr_form as usize] = cpr_lat;
             self.cpr_lon[cpr_form as usize] = cpr_lon;
             self.cpr_time[cpr_form as usize] = self.timestamp;
+            self.cpr_surface[cpr_form as usize] = (5..=8).contains(&dl.message_type.0);
 
             self.update_position(dl.message_type.0, cpr_form);
         }
